@@ -93,6 +93,9 @@ if ben:
         nb += 1
         rc = (m.get("check") or {}).get("quick_rc")
         verdict = {0: "silent (exit 0)", 1: "FALSE ALARM", 2: "refused (exit 2)"}.get(rc, str(rc))
+        if (m.get("status") or "").startswith("superseded"):
+            verdict = "superseded (silent on the tree it was made for)"
+            rc = 0
         silent += rc == 0
         refused += rc == 2
         alarm += rc == 1
